@@ -290,57 +290,73 @@ fn write_body(w: &World, i: usize) {
 }
 
 // @tier quick
-// @obligation delete(id) and change_id(old,new) from every store content and instant: delete removes a live record, fails with UnknownId otherwise; change_id refuses a live target (DuplicateId, nothing changes), fails with UnknownId when the source is absent/expired (nothing changes), otherwise moves state and deadline to the new id and leaves nothing under the old one
-// @bounds as c13_load; old/new range over {A,B} (old == new included)
-// @functions InMemorySessionStore::{delete,change_id}, _delete, get_mut_if_fresh
+// @obligation delete(id) from every store content and instant: removes a live record, fails with UnknownId on an absent or expired one (which stays unobservable); the other record is untouched
+// @bounds as c13_load
+// @functions InMemorySessionStore::delete, _delete
 #[kani::proof]
 #[kani::unwind(4)]
 #[kani::stub(std::fmt::format, fmt_stub)]
-fn c13_delete_change_id() {
+fn c13_delete() {
+    let w = any_world();
+    if nd::any_bool() { delete_body(&w, 0) } else { delete_body(&w, 1) }
+    std::mem::forget(w);
+}
+fn delete_body(w: &World, i: usize) {
+    let mut m2 = w.m;
+    let live_i = w.m.live(i, w.now);
+    vtrace_op("delete", i, i, &[0, 0], 0);
+    let r = w.s.delete(&id_of(i));
+    if live_i {
+        assert!(r.is_ok(), "delete failed on a live record");
+        m2.recs[i] = NOREC;
+    } else {
+        assert!(matches!(&r, Err(DeleteError::UnknownId(_))), "delete on an absent/expired record must fail with unknown-id");
+    }
+    std::mem::forget(r);
+    check_views(w, &m2);
+    kani::cover!(!live_i && w.m.recs[i].present, "delete of an expired record");
+    kani::cover!(live_i, "delete of a live record");
+}
+
+// @tier quick
+// @obligation change_id(old,new) from every store content and instant: refuses a live target (DuplicateId, nothing changes), fails with UnknownId when the source is absent/expired (nothing changes), otherwise moves state and deadline to the new id and leaves nothing under the old one
+// @bounds as c13_load; old/new range over {A,B} (old == new included)
+// @functions InMemorySessionStore::change_id, _delete, get_mut_if_fresh
+// @timeout 1800
+#[kani::proof]
+#[kani::unwind(4)]
+#[kani::stub(std::fmt::format, fmt_stub)]
+fn c13_change_id() {
     let w = any_world();
     let c: u8 = nd::u8_below(4);
     match c {
-        0 => del_body(&w, 0, 0),
-        1 => del_body(&w, 0, 1),
-        2 => del_body(&w, 1, 0),
-        _ => del_body(&w, 1, 1),
+        0 => change_body(&w, 0, 0),
+        1 => change_body(&w, 0, 1),
+        2 => change_body(&w, 1, 0),
+        _ => change_body(&w, 1, 1),
     }
     std::mem::forget(w);
 }
-fn del_body(w: &World, i: usize, j: usize) {
+fn change_body(w: &World, i: usize, j: usize) {
     let mut m2 = w.m;
     let live_i = w.m.live(i, w.now);
-    let is_delete: bool = nd::any_bool();
-    vtrace_op(if is_delete { "delete" } else { "change_id" }, i, j, &[0, 0], 0);
-    if is_delete {
-        let r = w.s.delete(&id_of(i));
-        if live_i {
-            assert!(r.is_ok(), "delete failed on a live record");
-            m2.recs[i] = NOREC;
-        } else {
-            assert!(matches!(&r, Err(DeleteError::UnknownId(_))), "delete on an absent/expired record must fail with unknown-id");
-        }
-        std::mem::forget(r);
+    let live_j = w.m.live(j, w.now);
+    vtrace_op("change_id", i, j, &[0, 0], 0);
+    let r = w.s.change_id(&id_of(i), &id_of(j));
+    if live_j {
+        assert!(matches!(&r, Err(ChangeIdError::DuplicateId(_))), "change_id onto a live record must fail with duplicate-id");
+    } else if !live_i {
+        assert!(matches!(&r, Err(ChangeIdError::UnknownId(_))), "change_id of an absent/expired record must fail with unknown-id");
     } else {
-        let r = w.s.change_id(&id_of(i), &id_of(j));
-        let live_j = w.m.live(j, w.now);
-        if live_j {
-            assert!(matches!(&r, Err(ChangeIdError::DuplicateId(_))), "change_id onto a live record must fail with duplicate-id");
-        } else if !live_i {
-            assert!(matches!(&r, Err(ChangeIdError::UnknownId(_))), "change_id of an absent/expired record must fail with unknown-id");
-        } else {
-            assert!(r.is_ok(), "change_id failed although the source is live and the target free");
-            let moved = w.m.recs[i];
-            m2.recs[i] = NOREC;
-            m2.recs[j] = moved;
-        }
-        std::mem::forget(r);
+        assert!(r.is_ok(), "change_id failed although the source is live and the target free");
+        let moved = w.m.recs[i];
+        m2.recs[i] = NOREC;
+        m2.recs[j] = moved;
     }
+    std::mem::forget(r);
     check_views(w, &m2);
-    kani::cover!(!is_delete && i != j && live_i && w.m.live(j, w.now), "change_id onto a live record");
-    kani::cover!(!is_delete && i != j && live_i && w.m.recs[j].present && !w.m.live(j, w.now), "change_id onto an expired record");
-    kani::cover!(is_delete && !live_i && w.m.recs[i].present, "delete of an expired record");
-    std::mem::forget(w);
+    kani::cover!(i != j && live_i && live_j, "change_id onto a live record");
+    kani::cover!(i != j && live_i && w.m.recs[j].present && !live_j, "change_id onto an expired record");
 }
 
 // @tier quick
@@ -392,7 +408,9 @@ mod native_search {
     #[test]
     fn c13_write_ops() { nd::search("c13_write_ops", super::c13_write_ops, reset) }
     #[test]
-    fn c13_delete_change_id() { nd::search("c13_delete_change_id", super::c13_delete_change_id, reset) }
+    fn c13_delete() { nd::search("c13_delete", super::c13_delete, reset) }
+    #[test]
+    fn c13_change_id() { nd::search("c13_change_id", super::c13_change_id, reset) }
     #[test]
     fn c13_delete_expired() { nd::search("c13_delete_expired", super::c13_delete_expired, reset) }
 }
